@@ -338,7 +338,13 @@ func c03r1(c *core.Ctx) {
 			"the SetCryptographer call is not dominated by tests on the controller's own response (err == nil and container tests)")
 		// product with the controller
 		total, accepting := 0, 0
-		for _, h := range m.handlers {
+		// the step handlers, and the dispatcher itself: an answer it builds on its own (for a request out of sequence, say) reaches the
+		// endpoint's guards like any other; what a step handler hands back through it is that handler's path
+		producers := append([]*ssa.Function(nil), m.handlers...)
+		if m.handle != nil {
+			producers = append(producers, m.handle)
+		}
+		for _, h := range producers {
 			bad := 0
 			ok := core.EnumPaths(h, 2, 50000, func(pa core.Path) {
 				total++
